@@ -417,7 +417,12 @@ def simplify_unitary(expr: e.Expr, t_name: str,
                     continue
                 else:
                     new_term *= o
-            return simplify_term_unitary(new_term.terms[0])
+            # sympy may have distributed a number over a remaining polynom
+            # (1 * (a + b) -> a + b): simplify every resulting term
+            ret = e.Expr(0, **term.assumptions)
+            for new_t in new_term.terms:
+                ret += simplify_term_unitary(new_t)
+            return ret
         # could not find simplification -> return
         return term
 
